@@ -353,3 +353,17 @@ def check(ctx, need):
             seen_ = hio.reach([en_], avoid=[c.bb for c in rc_])
             okc = okc and not any(x in seen_ for x in hio.exits())
         ctx.ob(okc, 'close (Shutdown) resets the protocol engine on every path, in every client state, so operations it still holds are resolved with an error instead of waiting forever', 'handoff|close-resets', loc=hio.loc())
+    # ---- added after the mutation sweep: once a driver has decided to leave the connected state (error, closed, stop) it touches
+    # neither the engine nor the transport again in that loop
+    for nm, v, _, wfn, rfn, ffn in drivers:
+        if nm != 'threaded':
+            continue   # the tokio loop has one select! per iteration followed by a flush tail that is gated by a flag only the write arm raises
+        sets_ = [b for b, e in var_inits(v, 'next_state') if show(e).startswith('Option::Some{')]
+        cont = prims.edge_nodes_matching(v, [r'^next_state is None$'])
+        acts = [c for c in v.calls() if c.nfn.split('::')[-1] in ('handle_service', 'handle_incoming_bytes', 'handle_write_completion', 'get_next_connected_service_time') or c.is_fn(wfn) or c.is_fn(rfn)]
+        succ_, _, _ = v.graph()
+        bad_ = []
+        for b in sets_:
+            r_ = v.reach(list(succ_[b]), avoid=cont)
+            bad_ += ['%s after next_state := Some at %s' % (short(c.nfn), v.loc(b)) for c in acts if c.bb in r_ and c.bb != b]
+        ctx.ob(bool(sets_) and bool(cont) and not bad_, '%s: after deciding to leave the connected loop no engine entry point or transport read/write is reached any more in that iteration %s' % (nm, bad_[:3]), 'svc|%s|leave-means-leave' % nm, loc=v.loc(), rule='R-C13-6')
